@@ -346,3 +346,33 @@ def check_encoding_current(tree):
     if sorted(enc_ids) != sorted(bip_ids):
         return "enc:encoding-list-differs-from-edges"
     return None
+
+
+def reachable_from(nd):
+    out = [nd]
+    for c in nd._child_nodes:
+        out.extend(reachable_from(c))
+    return out
+
+
+def canonical_form(parents):
+    """nested sorted tuple identifying the unordered rooted shape"""
+    n = len(parents) + 1
+    ch = [[] for _ in range(n)]
+    for i, p in enumerate(parents):
+        ch[p].append(i + 1)
+
+    def rec(i):
+        return tuple(sorted(rec(c) for c in ch[i]))
+    return rec(0)
+
+
+def unordered_representatives(vectors):
+    seen = set()
+    out = []
+    for v in vectors:
+        c = canonical_form(v)
+        if c not in seen:
+            seen.add(c)
+            out.append(v)
+    return out
